@@ -91,6 +91,20 @@ def check(uid, tier, seed=0, only=None, keep=False):
     if not proofs:
         print('UNDECIDED property=%s no proof selected' % uid)
         return EXIT_UNDECIDED
+    # restructured loops: the unit's loop contracts do not fit the lowered function any more.  Proving is off; what remains
+    # is a bounded SEARCH for a postcondition violation (loops unwound, no unwinding assertions): a counterexample it finds
+    # is a real violation of the contract within the models, a pass decides nothing (reported UNDECIDED).
+    from . import unit as unitmod
+    fallback = {}
+    for p in proofs:
+        if p.enforce in unitmod.LOOP_MISMATCH and p.loop_contracts:
+            p.loop_contracts = False
+            p.expect_loops = 0
+            p.kind = 'bounded'
+            p.unwind = int(os.environ.get('VERIF_FALLBACK_UNWIND', '4'))
+            p.no_unwinding_assertions = True
+            p.bound_text = 'loop structure of %s changed (%s): bounded search, loops unwound %d times' % (p.enforce, unitmod.LOOP_MISMATCH[p.enforce], p.unwind)
+            fallback[p.id] = p.bound_text
     results = run_all(proofs, work)
     findings = [f for f in known_findings() if f['property'] == uid]
     open_findings = {f['id']: f for f in findings if f.get('status') == 'open'}
@@ -120,6 +134,16 @@ def check(uid, tier, seed=0, only=None, keep=False):
             len([o for o in obs if re.match(r'\[(post|lemma|pre@)', o.get('description') or '')])
         if want and got < want:
             undecided.append('%s: vacuity guard: %d postcondition obligations expected, %d generated' % (p.id, want, got))
+            continue
+        if p.id in fallback:
+            post_fail = [o for o in failed if '.postcondition.' in (o['name'] or '') and not (o['name'] or '').startswith('free.')]
+            if not post_fail:
+                undecided.append('%s: %s; no postcondition violation found within the bound (not a proof)' % (p.id, fallback[p.id]))
+                continue
+            failed = post_fail
+            bounded.append({'proof': p.id, 'bound': p.bound_text, 'obligations': len(obs), 'failed': len(failed)})
+            for o in failed:
+                violations.append((p, r, o))
             continue
         if fid:
             # run restricted to the discriminator of a recorded finding: its failure is the finding itself
